@@ -16,6 +16,7 @@ from __future__ import annotations
 import ast
 
 from ..absint import EventAnalysis, run_events
+from ..helpers import collect_loop, flows_from
 from ..facts import abs_range, atoms, call_is, equality_atoms, index_of, strip
 from ..model import AnalysisError, norm
 from ..terms import NEG, is_const, show, subterms, summarize
@@ -219,7 +220,7 @@ def run(ctx):
                     yield t, conds
             for leaf, conds in leaves(strip(rc), []):
                 if leaf == ("global", PROPS):
-                    pos = [c for c, tr in conds if tr]
+                    pos = [strip(a) for a in atoms(conds)]      # definite facts on this leaf (conjunctions flattened)
                     ids_ok = False
                     for c in pos:
                         if c[0] == "cmp" and c[1] == "in" and c[3][0] in ("list", "tuple", "set"):
@@ -259,7 +260,14 @@ def run(ctx):
             continue
         ctx.count("valid_list_appends")
         t = gs.ta.terms_at.get(a.args[0]) if a.args else None
-        from_construct = t is not None and call_is(strip(t), f"{CMD}.Response.construct")
+        def ite_leaves(x):
+            x = strip(x)
+            if x[0] == "ite":
+                return ite_leaves(x[2]) + ite_leaves(x[3])
+            return [x]
+        lv = ite_leaves(t) if t is not None else []
+        # (a helper that returns None for a rejected frame is fine: None is not a response and is guarded / crashes, never validates)
+        from_construct = any(call_is(x, f"{CMD}.Response.construct") for x in lv) and all(call_is(x, f"{CMD}.Response.construct") or x == ("const", None) for x in lv)
         ctx.ob("C13.c", GETR, from_construct and id(a) not in in_handler,
                "only the result of a normally completed Response.construct is appended to the returned list",
                func=GETR, file=g.module.rel, node=a,
@@ -269,8 +277,13 @@ def run(ctx):
     sup = None
     for _pc, _t, _n, rst in gs.returns:
         sup = rst.env.get(f"{g.params[0]}._supported")
-    sup_ok = sup is not None and any(call_is(x, "len") and strip(x[2][0])[0] in ("loopvar", "mut", "list", "ite") for x in subterms(sup)) \
-        and not any(x[0] == "await" for x in subterms(sup))
+    rets = [strip(t) for _pc, t, n, _st in gs.returns if n is not None]
+    sup_ok = sup is not None and len(set(rets)) == 1 and rets[0][0] in ("loopvar", "mut", "list", "ite", "comp") and any(strip(x) == rets[0] for x in subterms(sup))
+    if sup_ok:
+        # ... and of nothing else: not of the raw frames, not of an earlier exchange (the previous flag, other device state)
+        from ..terms import replace
+        rest = replace(sup, {x: ("const", "<valid list>") for x in subterms(sup) if strip(x) == rets[0]})
+        sup_ok = not any(x[0] in ("param", "attr", "loopvar", "await", "iter", "top") for x in subterms(rest))
     ctx.ob("C13.c", GETR, sup_ok, "`supported` is a function of the number of valid responses of this exchange", func=GETR, file=g.module.rel,
            construct="self._supported = len(valid_responses) > 0", fail="`supported` is not derived from the valid-response list (raw frames count)")
     # every _update_state argument comes from _send_command_get_responses
@@ -281,7 +294,7 @@ def run(ctx):
             if isinstance(n, ast.Call) and isinstance(n.func, ast.Attribute) and n.func.attr == "_update_state" and isinstance(n.func.value, ast.Name):
                 fs = fs or summarize(prog, f)
                 t = fs.ta.terms_at.get(n.args[0]) if n.args else None
-                ok = t is not None and any(call_is(x, GETR) for x in subterms(t))
+                ok = t is not None and flows_from(fs, f, t, lambda x: call_is(x, GETR))
                 ctx.count("update_state_calls")
                 ctx.ob("C13.c", f.qual, ok, "_update_state receives an element of a valid-response list", func=f.qual, file=f.module.rel, node=n,
                        detail={"argument": show(t) if t else None},
@@ -291,7 +304,14 @@ def run(ctx):
     on = None
     for _pc, _t, _n, rst in rs.returns:
         on = rst.env.get(f"{r.params[0]}._online")
-    on_ok = on is not None and any(call_is(x, "len") and any(call_is(y, GETR) for y in subterms(x)) for x in subterms(on))
+
+    def from_getr(x):
+        if any(call_is(y, GETR) for y in subterms(x)):
+            return True
+        src = collect_loop(rs, r, strip(x)) if x[0] == "loopvar" else None
+        return src is not None and any(call_is(y, GETR) for y in subterms(src))
+    on_ok = on is not None and any(from_getr(x) for x in subterms(on) if x[0] in ("comp", "loopvar", "await", "mut")) \
+        and not any(call_is(x, f"{AC}._send_command") or (x[0] == "call" and x[1][0] == "ext" and x[1][1].endswith("._send_command")) for x in subterms(on))
     ctx.ob("C13.c", r.qual, on_ok, "`online` is a function of the number of valid responses of this refresh", func=r.qual, file=r.module.rel,
            construct="self._online = len(responses) > 0", fail="`online` is not derived from the validated responses of this refresh")
     cm = prog.module(CMD)
